@@ -97,6 +97,7 @@ FEATURES = [
     ("interface_array_const_keyed", "interface HC{S} { const ORDER = ['y' => 1, 'b' => 2, 'k' => 3]; } class HI{S} implements HC{S} {} echo implode(',', array_keys(HC{S}::ORDER)), implode(',', array_keys(HI{S}::ORDER)), \"\\n\";"),
     ("reflection_constructor", "class NoCtor{S} {} class WithCtor{S} { public $a; function __construct($a = 1, $b = 2) { $this->a = $a; } } class Inherits{S} extends WithCtor{S} {} class Promoted{S} { function __construct(public $x = 0, protected int $y = 3) {} } abstract class AbsC{S} { public $q; function __construct($q = 9) { $this->q = $q; } } class FromAbs{S} extends AbsC{S} {}\nforeach (['NoCtor{S}', 'WithCtor{S}', 'Inherits{S}', 'Promoted{S}', 'FromAbs{S}'] as $c{S}) { $rc{S} = new \\ReflectionClass($c{S}); $k{S} = $rc{S}->getConstructor(); if ($k{S} === null) { echo $c{S}, \": null\\n\"; continue; } echo $c{S}, ': ', $k{S}->getName(), ' ', count($k{S}->getParameters()), \"\\n\"; }\necho (new \\ReflectionClass('Inherits{S}'))->newInstance(7)->a, (new \\ReflectionClass('FromAbs{S}'))->newInstanceArgs([8])->q, \"\\n\";"),
     ("type_forms", "interface TI{S} { function m(int $a): ?string; }\nclass TC{S} implements TI{S} { public int $pi = 1; public ?string $ps = null; public int|string $pu = 2; public array $pa = []; protected float $pf = 1.5; private bool $pb = true; public ?TC{S} $self = null; public static int $cnt = 0; public static ?array $reg = null;\n function m(int $a): ?string { return (string)$a; }\n function all(int $a, float $b, string $c, bool $d, array $e, ?int $f, int|string|null $g, callable $h, object $i, mixed $j, TC{S} $k, self $l, iterable $m, \\Closure $n): void {}\n static function make(): static { self::$cnt++; return new static(); }\n function me(): self { return $this; }\n function nothing(): null { return null; }\n function nf(): false|int { return 1; } }\nfunction tf{S}(int $a = 1, string ...$rest): array { return [$a, $rest]; }\n$cl{S} = function(?array $x, int|float $y = 2): int|float { return $y; };\n$af{S} = fn(string $s): string => $s;\necho json_encode(tf{S}(2, 'a', 'b')), $cl{S}(null), $af{S}('z'), (new TC{S}())->m(5), TC{S}::make()->me()->pi, TC{S}::$cnt, json_encode(TC{S}::$reg), \"\\n\";\ntry { (new TC{S}())->m('x'); } catch (\\Throwable $e{S}) { echo 'type error caught', \"\\n\"; }\ntry { $o{S} = new TC{S}(); $o{S}->pi = 'notint'; echo 'stored'; } catch (\\Throwable $e{S}) { echo 'prop type error', \"\\n\"; }"),
+    ("float_bits", "$fa{S} = 0.30000000000000004; $fb{S} = 0.7999999999999999; $fe{S} = 2.220446049250313E-16; $fc{S} = 9007199254740993.0; echo ($fa{S} == 0.1 + 0.2) ? 'eq' : 'ne', ' ', ($fb{S} == 0.8) ? 'eq' : 'ne', ' ', (1.0 + $fe{S} > 1.0) ? 'gt' : 'same', ' ', ($fa{S} - 0.3) * 1e17, ' ', ($fb{S} - 0.8) * 1e17, ' ', ($fc{S} == 9007199254740992.0) ? 'eq' : 'ne', ' ', (0.1 + 0.7) * 10 == 8.0 ? 'eq' : 'ne', \"\\n\";"),
     ("list_assign", "[$la{S}, $lb{S}] = [1, 2]; echo $la{S}, $lb{S}, \"\\n\";"),
     ("incr_ops", "$u{S} = 1; $u{S}++; ++$u{S}; $u{S} += 3; $u{S} -= 1; $u{S} *= 2; $w{S} = 'a'; $w{S} .= 'b'; echo $u{S}, $w{S}, \"\\n\";"),
     ("uncaught_throw", "echo \"before\\n\"; throw new Exception('uncaught{S}'); echo 'after';"),
@@ -740,7 +741,20 @@ def main(ck):
         stress = [("replay", bytes.fromhex(replay["hex"]))]
     elif replay is None and not quick:
         stress = stress_strings(rng, 3000)
+    # float64 bit patterns for the float-literal round trip: values needing 15 / 16 / 17 significant digits, powers of two
+    # and their neighbours, subnormals, the extremes, +-0, +-inf, NaN, whole numbers, seeded random bit patterns
+    import struct
+    fl = [0.1, 0.2, 0.1 + 0.2, 0.7999999999999999, 2.220446049250313e-16, 9007199254740992.0, 9007199254740993.0, 1.0, -3.0, 1e25,
+          1e-300, 5e-324, 2.2250738585072014e-308, 2.225073858507201e-308, 1.7976931348623157e308, 123456789.12345678, 1 / 3, 2 / 3,
+          3.141592653589793, 0.30000000000000004, 1e15 + 0.3, 4.35, 0.000001, 1e21, 1e22, 123456789012345680.0]
+    fbits = ["%016x" % struct.unpack(">Q", struct.pack(">d", x))[0] for x in fl + [-x for x in fl]]
+    fbits += ["0000000000000000", "8000000000000000", "7ff0000000000000", "fff0000000000000", "7ff8000000000000", "0000000000000001", "000fffffffffffff"]
+    for e in range(0, 2047, 97):
+        for m in (0, 1, (1 << 52) - 1, 0x5555555555555):
+            fbits.append("%016x" % ((e << 52) | m))
+    fbits += ["%016x" % rng.getrandbits(64) for _ in range(400 if quick else 5000)]
     reqs = [{"mode": "table"}, {"mode": "emit_zero"}, {"mode": "strlit", "hex": [b.hex() for _, b in stress]}, {"mode": "loaders"},
+            {"mode": "floatlit", "hex": fbits if (replay is None or replay.get("kind") == "floatlit") else []},
             {"mode": "struct", "files": gen_files}]
     for d in sorted(by_dir):
         reqs.append({"mode": "struct", "files": sorted(by_dir[d])})
@@ -758,7 +772,15 @@ def main(ck):
     emit_zero = outs[1]["emit_zero"]
     strlit = outs[2].get("strlit") or []
     loaders = outs[3].get("loaders") or {}
-    structs = [s for o in outs[4:] for s in o["struct"]]
+    floatlit = outs[4].get("floatlit") or []
+    structs = [s for o in outs[5:] for s in o["struct"]]
+    nfl_bad = 0
+    for r in floatlit:
+        if r.get("status") != "ok":
+            nfl_bad += 1
+            ck.violation("floatlit:%s" % r.get("status"), {"case": {"kind": "floatlit", "hex": r.get("hex")}, "impl_out": r,
+                                                           "clause": "float_round_trip: the Go expression the emitter prints for a float must denote exactly the same float64 (bits %s)" % r.get("hex")})
+    ck.cov["float_round_trip_bit_patterns"] = len(floatlit)
     # ---- the generated main.go loads the standard library like the interpreter does (seeded C16-6): VM.AddClass /
     # AddFunc keep the first registration of a name, so for names registered by two loaders the ORDER decides
     def load_order(text):
@@ -858,7 +880,7 @@ def main(ck):
     ck.cov["emit_zero_outcomes"] = {o: sum(1 for e in emit_zero if e["outcome"] == o) for o in ("ok", "error", "panic")}
 
     # ---- string literals: what the real emitter prints, read back as the Go compiler reads it
-    evaluations += len(strlit)
+    evaluations += len(strlit) + len(floatlit)
     nfields = 0
     for (sid, b), r in zip(stress, strlit):
         nfields = max(nfields, r.get("fields", 0))
